@@ -393,7 +393,7 @@ func nativeReplay(rel string, cases []replayCase, race bool) ([]string, error) {
 		ctx, cancel := context.WithTimeout(context.Background(), 10*time.Minute)
 		cmd := exec.CommandContext(ctx, bin, "-test.v", "-test.run", "^TestVerifReplay$", "-test.timeout", "8m")
 		cmd.Dir = sc.dir
-		cmd.Env = append(goEnv(), "VERIF_REPLAY_CASES="+cf, "VERIF_REPLAY_START="+strconv.Itoa(start), "GORACE=halt_on_error=1")
+		cmd.Env = append(goEnv(), "VERIF_REPLAY_CASES="+cf, "VERIF_REPLAY_START="+strconv.Itoa(start), "GORACE=halt_on_error=1", "TZ=UTC")
 		var out bytes.Buffer
 		cmd.Stdout = &out
 		cmd.Stderr = &out
